@@ -1,5 +1,6 @@
 import Verif.Proofs.Move
 import Verif.Proofs.MoveModel
+import Verif.Proofs.RetargetModel
 
 /-!
 # C01 — the naming move of Flatten preserves the meaning of the API (proved for all documents)
@@ -70,6 +71,32 @@ theorem nameWith_preserves_meaning (S : Setting) (fc : Facts) (x : Flatten.Ext) 
       unfold S.b1 hops n ("", S.toks ++ t) = unfold S.b2 (hops + 1) n ("", defn S.n ++ t)) :=
   ⟨Proofs.MoveModel.nameWith_is_the_move S fc x o st st' key parts name h hdoc hkey hloc hname href hnodep,
    naming_move_preserves_meaning S ht hr hops hst⟩
+
+/-- **The second kind of rewrite: re-targeting a `$ref` along its own chain.**  `Name` (and the `TopLevel` branch of
+    `namePointers`) call `UpdateRef(k, #/definitions/newName)` on `$ref`s whose value leads, through anonymous pointers,
+    to the place that now holds `$ref: #/definitions/newName`.  For every document `d`, key and new `$ref` string `v'`:
+    if the position `q'` that `v'` designates lies on the chain of `$ref`s that starts at the old target `q0`
+    (`Reaches`), then every position of the bundle denotes the same tree before and after `Replace.updateRef d key v'`
+    (positions of the root spelled canonically and not inside the `$ref` member itself; all positions of auxiliary
+    documents).  Hypotheses: object keys canonical as tokens, no `$ref` of the bundle designates a position inside the
+    rewritten `$ref` member, and the hop bound is adequate (`Adequate`: every chain that ends at all ends within `hops`).
+    Non-vacuity is not shown by an `example` here (`keyTokens` on a literal does not reduce in the kernel, and `Adequate`
+    quantifies over all positions); the abstract statement `Proofs.Retarget.RSetting.retarget_preserves` carries the
+    argument, and the certificate checker validates the rewritten bundles per run. -/
+theorem retarget_preserves_meaning (d d' : J) (key v' : String) (h : Replace.updateRef d key v' = .ok d')
+    (T : List (String × Pos)) (rest : Bundle) (a1 : J)
+    (hget : Spec.Pointer.get d (Replace.keyTokens key) = some a1) (hv1 : Doc.refStr a1 ≠ "") (hv2 : v' ≠ "")
+    (q0 q' : Pos) (ht1 : T.lookup (Doc.refStr a1) = some q0) (ht2 : T.lookup v' = some q')
+    (hreach : Proofs.Retarget.Reaches (Proofs.RetargetModel.bundleWith d T rest) q0 q')
+    (hcanon : AllCanon (Replace.keyTokens key)) (hkeys : keysCanon d = true)
+    (hgoodT : ∀ doc s q, (Proofs.RetargetModel.bundleWith d T rest).target doc s = some q →
+      Proofs.RetargetModel.Good (Replace.keyTokens key) q)
+    (hops : Nat) (had : Proofs.Retarget.RSetting.Adequate (Proofs.RetargetModel.bundleWith d T rest) hops) :
+    ∀ n p, Proofs.RetargetModel.Good (Replace.keyTokens key) p →
+      unfold (Proofs.RetargetModel.bundleWith d T rest) hops n p =
+        unfold (Proofs.RetargetModel.bundleWith d' T rest) hops n p :=
+  Proofs.RetargetModel.updateRef_retarget_preserves d d' key v' h T rest a1 hget hv1 hv2 q0 q' ht1 ht2 hreach hcanon hkeys
+    hgoodT hops had
 
 /-- `replace.RewriteSchemaToRef` (model) is the `setAt` of the setting: what the move theorem calls
     "leave a `$ref` node at `toks`" is what the primitive does -/
